@@ -208,7 +208,10 @@ func (rr *C05Races) Close() {
 // blocks; this is repeated until no other thread is enabled any more (the chooser then reports
 // "replay divergence": the alternative does not exist). Only then - every other thread is
 // finished or blocked and the remaining one still exceeds the horizon - is it reported.
-func C05Judge(r *vk.Run, class, id string, out vsched.Outcome, calls []*C05Call, races *C05Races, rerun func(trace string, horizon int) (vsched.Outcome, []*C05Call)) string {
+// rerun's third result is a seam-specific diagnosis of a run that hit the horizon; it becomes
+// part of the signature (BalanceRR seam: "seq" when a lone sequential call from the reached
+// state does not terminate either, i.e. the state alone is enough, no interleaving needed).
+func C05Judge(r *vk.Run, class, id string, out vsched.Outcome, calls []*C05Call, races *C05Races, rerun func(trace string, horizon int) (vsched.Outcome, []*C05Call, string)) string {
 	var rep []C05Race
 	if out.Races > 0 {
 		rep = races.Collect()
@@ -226,13 +229,14 @@ func C05Judge(r *vk.Run, class, id string, out vsched.Outcome, calls []*C05Call,
 	spun := ""
 	if out.Horizon && out.Panic == "" {
 		tr, last := out.Trace, out
+		_, _, diag := rerun(tr, C05Horizon) // same schedule once more, for the seam's diagnosis
 		confirmed := false
 		for round := 1; round <= 16; round++ {
 			ext := "1"
 			if tr != "" {
 				ext = tr + ".1"
 			}
-			o2, c2 := rerun(ext, C05Horizon*(round+1))
+			o2, c2, d2 := rerun(ext, C05Horizon*(round+1))
 			if strings.Contains(o2.Panic, "replay divergence") {
 				confirmed = true
 				break
@@ -242,10 +246,15 @@ func C05Judge(r *vk.Run, class, id string, out vsched.Outcome, calls []*C05Call,
 				out, calls, spun = o2, c2, "spin-ended-by-other-thread:"
 				break
 			}
-			tr, last = o2.Trace, o2
+			tr, last, diag = o2.Trace, o2, d2
 		}
 		if confirmed {
-			r.Violation("nonterm:"+class, id, fmt.Sprintf("a balancing call never returns: after %d steps, and after every other thread was run until it finished or blocked, the execution still exceeds the step horizon; live threads and their pending operations: %v", C05Horizon, last.Blocked))
+			sig, extra := "nonterm:"+class, ""
+			if diag != "" {
+				sig += ":" + diag
+				extra = "; " + diag + " = a single call started alone (no other thread) from the balancer state reached here does not return either"
+			}
+			r.Violation(sig, id, fmt.Sprintf("a balancing call never returns: after %d steps, and after every other thread was run until it finished or blocked, the execution still exceeds the step horizon; live threads and their pending operations: %v%s", C05Horizon, last.Blocked, extra))
 			return "nonterm"
 		}
 		if out.Horizon {
@@ -292,7 +301,7 @@ var c05AlgoName = []string{"WrrSimple", "WrrSmooth", "WrrSticky", "WlcSimple", "
 
 type c05scn struct {
 	algo int
-	ws   []int  // configured weights (>=0, at least one >0: SubClusterBackend.Check)
+	ws   []int  // configured weights (at least one >0: all that SubClusterBackend.Check demands; negative weights are legal)
 	init string // tokens: x = credits exhausted by a sequential prefix, d<i> = backend i starts unavailable, r<i> = restarted flag set, c<i> = one open connection, S = slow start on
 	bal  [2]int // balancing calls of thread B1 / B2
 	flip string // availability script (thread F), "" = none
@@ -329,7 +338,11 @@ func c05updConf(ws []int, kind byte) cluster_table_conf.SubClusterBackend {
 			nw[0]++
 		} else {
 			nw[0] = 0
-			if nw[1] == 0 {
+			pos := false
+			for _, w := range nw {
+				pos = pos || w > 0
+			}
+			if !pos {
 				nw[1] = 1
 			}
 		}
@@ -363,7 +376,9 @@ func (s c05scn) prefixCalls() int {
 	}
 	n := 0
 	for _, w := range s.ws {
-		n += w * 100
+		if w > 0 {
+			n += w * 100
+		}
 	}
 	return n
 }
@@ -454,6 +469,38 @@ func c05state(brr *BalanceRR) string {
 	return sb.String()
 }
 
+// c05seqProbe copies the state of src (as left by an execution that hit the horizon) into a
+// fresh BalanceRR and runs ONE balancing call alone under the scheduler: "seq" if that call does
+// not terminate either.
+func c05seqProbe(s c05scn, src *BalanceRR) string {
+	clone := NewBalanceRR("sub")
+	for _, b := range src.backends {
+		nb := new(BackendRR)
+		*nb = *b
+		nk := backend.NewBfeBackend()
+		ob := b.backend
+		nk.Name, nk.Addr, nk.Port, nk.AddrInfo, nk.SubCluster = ob.Name, ob.Addr, ob.Port, ob.AddrInfo, ob.SubCluster
+		if !ob.Avail() {
+			nk.SetAvail(false)
+		}
+		nk.SetRestart(ob.GetRestart())
+		for i := 0; i < ob.ConnNum(); i++ {
+			nk.IncConnNum()
+		}
+		nb.backend = nk
+		clone.backends = append(clone.backends, nb)
+	}
+	clone.sorted, clone.next, clone.slowStartNum, clone.slowStartTime = src.sorted, src.next, src.slowStartNum, src.slowStartTime
+	var out vsched.Outcome
+	C05Replay1("", func(ch *vk.Chooser) {
+		out = vsched.Run(ch, C05Horizon, func() { clone.Balance(s.algo, s.keyBytes()) })
+	})
+	if out.Horizon {
+		return "seq"
+	}
+	return ""
+}
+
 // c05run executes one interleaving of scenario s.
 func c05run(s c05scn, sn *c05snap, ch *vk.Chooser, horizon int) (vsched.Outcome, []*C05Call, *BalanceRR) {
 	rand.Seed(1)
@@ -520,7 +567,9 @@ func c05valid(s c05scn) bool {
 	if strings.Contains(s.upd, "U-") {
 		rest := 0
 		for _, w := range s.ws[1:] {
-			rest += w
+			if w > 0 {
+				rest += w
+			}
 		}
 		if rest == 0 {
 			return false // would leave no backend with weight > 0: rejected by SubClusterBackend.Check
@@ -583,6 +632,24 @@ func c05slbPasses(thorough bool) []c05pass {
 				}
 			}
 		}
+		// negative weights are legal configuration (SubClusterBackend.Check only wants one
+		// weight > 0): shapes with a negative-weight backend; the flips take the
+		// positive-weight backend down
+		negShapes, negInits, negFlips, negUpds := [][]int{{1, -1}}, []string{"", "x"}, []string{"d0", "d0u0", "f0f1"}, []string{"U+", "Uz"}
+		if thorough {
+			negShapes, negInits, negFlips, negUpds = [][]int{{1, -1}, {-1, 1}, {1, -1, 0}}, []string{"", "x", "d0", "xd1"}, flips, upds
+		}
+		for _, ws := range negShapes {
+			for _, in := range negInits {
+				for i, fl := range negFlips {
+					add(&a, c05scn{algo: algo, ws: ws, init: in, bal: [2]int{2, 0}, flip: fl, upd: negUpds[i%len(negUpds)]})
+					add(&b, c05scn{algo: algo, ws: ws, init: in, bal: [2]int{1, 1}, flip: fl})
+				}
+				for _, up := range negUpds {
+					add(&c, c05scn{algo: algo, ws: ws, init: in, bal: [2]int{1, 1}, upd: up})
+				}
+			}
+		}
 		// the collisions named in the plan at the higher bound: 2 backends, credits exhausted
 		for _, in := range []string{"x", "xd1"} {
 			fl := "d0d1"
@@ -637,8 +704,14 @@ func VerifC05SLB(r *vk.Run, races *C05Races, idx *int) {
 				if !r.Case(id) {
 					return
 				}
-				oc := C05Judge(r, class, id, out, calls, races, func(tr string, h int) (o2 vsched.Outcome, c2 []*C05Call) {
-					C05Replay1(tr, func(ch2 *vk.Chooser) { o2, c2, _ = c05run(s, sn, ch2, h) })
+				oc := C05Judge(r, class, id, out, calls, races, func(tr string, h int) (o2 vsched.Outcome, c2 []*C05Call, diag string) {
+					C05Replay1(tr, func(ch2 *vk.Chooser) {
+						var b2 *BalanceRR
+						o2, c2, b2 = c05run(s, sn, ch2, h)
+						if o2.Horizon {
+							diag = c05seqProbe(s, b2)
+						}
+					})
 					return
 				})
 				r.Transitions(int64(out.Steps))
